@@ -94,7 +94,7 @@ St(t, sub)      == Lit(t, "string", "", "", FALSE, "", "", sub, 0, TRUE)
 Sn(t, syn, i, a, b) == Lit(t, "string", t, syn, i, a, b, "num", 0, TRUE)
 Sd(t, ms)       == Lit(t, "string", "", "", FALSE, "", "", "dur", ms, TRUE)
 Bo(t)           == Lit(t, "bool", "", "", FALSE, "", "", "", 0, TRUE)
-NoLit           == Lit("", "none", "", "", FALSE, "", "", "", 0, TRUE)
+NoLit           == Lit("<none>", "none", "", "", FALSE, "", "", "", 0, TRUE)
 
 Lits == <<
   \* 1..10
@@ -145,7 +145,10 @@ Lits == <<
   Lit("0x1F", "string", "31", "go", TRUE, "exact", "exact", "num", 0, TRUE),
   Lit("0b11", "string", "3", "go", TRUE, "exact", "exact", "num", 0, TRUE),
   Lit("0o17", "string", "15", "go", TRUE, "exact", "exact", "num", 0, TRUE),
-  Lit("1_000", "string", "1000", "go", TRUE, "exact", "exact", "num", 0, TRUE) >>
+  Lit("1_000", "string", "1000", "go", TRUE, "exact", "exact", "num", 0, TRUE),
+  \* 75  the empty string (a value of typed documents, headers and JSON bodies; a form or path
+  \*     value cannot carry it: the form parser drops empty values, the path filler refuses them)
+  St("", "plain") >>
 
 NLits == Len(Lits)
 LitByText(t) == Lits[CHOOSE i \in 1..NLits : Lits[i].text = t /\ Lits[i].class # "string"]
@@ -262,7 +265,7 @@ ConvTypedString(l, k) ==
     [] Numeric(l) /\ k \in NumKinds -> NumInto(l, k, TRUE)
     [] OTHER -> ErrOrAny
 
-TextRenderable(l) == l.class \in {"num", "bool", "string"}
+TextRenderable(l) == l.class \in {"num", "bool", "string"} /\ l.text # ""
 
 Conv(l, k, o, src) ==
   IF src = "text" THEN ConvText(l, k)
